@@ -15,7 +15,7 @@ BUILDS = {'quick': [('k160', 'stone5'), ('k160', 'stone5', 'full', 'all_layouts'
                        ('b248', 'stone6', 'full', 'all_layouts', 'parser'), ('k160', 'stone6', 'full', 'all_layouts', 'parser')]}
 HX = None
 RULE = ('random op sequences (length <= 40 quick / <= 400 thorough) over {absorb felt, absorb vector (incl. empty), absorb u64 (incl. 0, '
-        'u64::MAX), squeeze} from random/edge digests and counters (incl. P-1 wrap); each with three auxiliary real-code runs: a strict '
+        'u64::MAX), squeeze, batch squeeze of 0..7} from random/edge digests and counters (incl. P-1 wrap); each with three auxiliary real-code runs: a strict '
         'prefix, the sequence with one absorbed value changed, the sequence with extra trailing messages. non-trivial = >= 2 ops with an '
         'absorb and a squeeze.')
 ASSUMPTIONS = ['Poseidon (starknet-crypto) is modelled by executable Lean code compared on every case; the oracle itself is relational',
@@ -27,7 +27,8 @@ def rand_ops(rng, n):
     ops = []
     for _ in range(n):
         k = rng.below(10)
-        if k < 4: ops.append('r')
+        if k < 3: ops.append('r')
+        elif k < 4: ops.append('R:' + format(rng.choice([0, 1, 2, 3, 7]), 'x'))
         elif k < 6: ops.append('f:' + hexf(rng.edge_felt()))
         elif k < 8: ops.append('v:' + hexl([rng.edge_felt() for _ in range(rng.choice([0, 1, 2, 5, 17]))]))
         else: ops.append('u:' + format(rng.choice([0, 1, rng.bits(64), (1 << 64) - 1]), 'x'))
@@ -102,6 +103,10 @@ def cases(rng, tier, feats, drv_ok):
     # long runs of squeezes
     for k in [2, 50, 300]:
         out.append(mk(rng, rng.felt(), P - 3, ['r'] * k))
+    # single squeezes followed by batch squeezes on the same digest (no absorb in between)
+    for a, b in [(1, 3), (2, 4), (3, 1), (5, 5)]:
+        out.append(mk(rng, rng.felt(), 0, ['r'] * a + ['R:%x' % b] + ['r']))
+        out.append(mk(rng, rng.felt(), 0, ['f:5'] + ['r'] * a + ['R:%x' % b, 'R:2'] + ['r']))
     return out
 
 
@@ -113,6 +118,15 @@ def classify(c, co):
 
 def nontrivial(c, co):
     return c['kind'] == 'recorded' or len(c['ops']) >= 2 and any(o == 'r' for o in c['ops']) and any(o != 'r' for o in c['ops'])
+
+
+def expand(ops):
+    """a batch squeeze `R:n` counts as n single squeezes"""
+    out = []
+    for o in ops:
+        if o.startswith('R:'): out += ['r'] * int(o[2:], 16)
+        else: out.append(o)
+    return out
 
 
 def parse(co):
@@ -144,13 +158,16 @@ def oracle(c, co):
     if co[0] != 'ok':
         return {'key': 'transcript:' + co[0], 'what': f'transcript run did not return ({co[0]})'}
     ch, dg, ctr = parse(co)
-    ops = c['ops']
+    ops = expand(c['ops'])
+    pre_sq = sum(1 for o in expand(c['ops'][:c['pre']]) if o == 'r')
+    mi_before = None if c['mi'] is None else sum(1 for o in expand(c['ops'][:c['mi']]) if o == 'r')
+    mi_tail_absorb = None if c['mi'] is None else any(not o.startswith(('r', 'R')) for o in c['ops'][c['mi'] + 1:])
     aux = c.get('aux_code', [])
     if len(aux) < 2 or any(a[0] != 'ok' for a in aux):
         return {'key': 'transcript:aux', 'what': 'auxiliary transcript run failed'}
     # 1. prefix: challenges of the prefix run are a prefix of ours
     pch, _, _ = parse(aux[0])
-    nsq = sum(1 for o in ops[:c['pre']] if o == 'r')
+    nsq = pre_sq
     if pch != ch[:nsq]:
         return {'key': 'prefix', 'what': 'challenges of a prefix history differ from the first challenges of the full history'}
     # 2. later messages change nothing before them
@@ -170,13 +187,13 @@ def oracle(c, co):
     # 4. a changed message changes every later challenge (and none before)
     if c['mi'] is not None and len(aux) >= 3:
         mch, mdg, _ = parse(aux[2])
-        before = sum(1 for o in ops[:c['mi']] if o == 'r')
+        before = mi_before
         if mch[:before] != ch[:before]:
             return {'key': 'changed-message:before', 'what': 'changing a message changed a challenge drawn before it'}
         for a, b in zip(ch[before:], mch[before:]):
             if a == b:
                 return {'key': 'changed-message:after', 'what': 'a challenge drawn after a changed message did not change'}
-        if mdg == dg and not any(o != 'r' for o in ops[c['mi'] + 1:]) is False and mdg == dg:
+        if mdg == dg:
             return {'key': 'changed-message:digest', 'what': 'digest unchanged after a changed message'}
     # counter semantics
     trailing = 0
